@@ -83,6 +83,10 @@ def cases(tier, seed):
             forced.append(["link", kind, i])
         for shape in L.JOIN_SHAPES:
             forced.append(["join", shape, i])
+        for kind in ("cat_roi", "category", "cat_2d", "cat_multirange"):
+            forced.append(["cats", kind, i])
+        for k in range(3):
+            forced.append(["history", "remove_last", 3 * i + k])
     for (r, p) in ROI_PRE:
         forced.append(["roi", r, p, 0])
     ng, nf = N_GEN[tier] // BLOCK, N_FILES[tier] // BLOCK
@@ -188,6 +192,8 @@ def signature_for(diff, gen, ses, before_dc, after_dc):
                 sig["uses_arithmetic_derived"] = any(leaf_uses_arithmetic(lf) for lf in L.sig_leaves(g["sig"]))
     if later:
         sig["slice_state_on_later_dataset"] = True
+    if desc.get("removed") is not None:
+        sig["dataset_removed_before_save"] = True
     return sig
 
 
@@ -200,6 +206,8 @@ def exc_signature(stage, exc, gen, desc=None):
             sig["slice_state_on_later_dataset"] = True
         if any(d.get("order_mode") == "first_overall" for d in desc["data"]):
             sig["derived_component_first_overall"] = True
+        if desc.get("removed") is not None:
+            sig["dataset_removed_before_save"] = True
     if hasattr(exc, "_vf_type"):
         sig["failing_type"] = exc._vf_type
     if hasattr(exc, "_vf_class"):
@@ -235,6 +243,8 @@ def tally_ingredients(ctx, desc, prefix):
         for k, plain in d["meta"]:
             seen.add("meta:" + k)
         seen.add("ndim:%d" % len(d["shape"]))
+        if d["cat"]:
+            seen.add("categorical_order:%s" % (d.get("custom_categories") or "default"))
         if d.get("order_mode"):
             seen.add("component_order:" + d["order_mode"])
         for t in d.get("style_extremes", []):
@@ -264,6 +274,8 @@ def tally_ingredients(ctx, desc, prefix):
                 seen.add("inequality_form:" + lf["form"])
     if desc.get("collide"):
         seen.add("label_collisions")
+    if desc.get("history"):
+        seen.add("history:" + desc["history"])
     for s in seen:
         ctx.count("%s:%s" % (prefix, s))
     return seen
@@ -340,6 +352,15 @@ def run_session(ctx, ses, tag):
     ctx.count("subset_masks_on_foreign_dataset_with_value",
               sum(1 for i, d in enumerate(obs0["data"]) for j, s in enumerate(d["subsets"])
                   if j < len(desc["groups"]) and desc["groups"][j]["on"] != i and s["mask"][0] == "value"))
+    if desc.get("removed") is not None:
+        # masks of the selection over the removed dataset's attribute, as seen by the datasets that stayed
+        ctx.count("history_masks_over_removed_dataset_with_value",
+                  sum(1 for d in obs0["data"] for j, s in enumerate(d["subsets"])
+                      if j < len(desc["groups"]) and desc["groups"][j]["on"] == desc["removed"] and s["mask"][0] == "value"))
+        ctx.count("history_masks_over_removed_dataset_nonempty",
+                  sum(1 for d in obs0["data"] for j, s in enumerate(d["subsets"])
+                      if j < len(desc["groups"]) and desc["groups"][j]["on"] == desc["removed"] and s["mask"][0] == "value"
+                      and s["mask"][1].any()))
     # ---- second generation
     ok2 = False
     try:
@@ -401,6 +422,10 @@ def session_opts(case):
         return {"want_link": case[1]}
     if kind == "join":
         return {"want_join": case[1]}
+    if kind == "cats":
+        return {"want_leaf": case[1], "cat_mode": "all_present"}
+    if kind == "history":
+        return {"history": case[1]}
     raise ValueError(case)
 
 
@@ -487,6 +512,8 @@ def floors(counters, tier):
            ["derived:" + k for k in L.DERIVED_FAMILY] + ["column:categorical", "column:datetime", "column:units"] + \
            ["coords:" + str(c) for c in set(L.COORD_KINDS)] + ["file:csv", "file:fits", "file:hdf5", "label_collisions"] + \
            ["component_order:" + m for m in set(L.ORDER_MODES)] + \
+           ["categorical_order:" + m for m in ("default", "all_present", "with_absent")] + \
+           ["history:remove_last:join_on_key", "history:remove_last:JoinLink"] + \
            ["%s_style:%s:%s" % (w, a, e) for w in ("data", "group") for a in ("alpha", "linewidth", "markersize")
             for e in ("falsy", "max")]
     for n in need:
@@ -499,6 +526,8 @@ def floors(counters, tier):
                 continue
             if counters.get("saver_used:" + name, 0) == 0:
                 out.append("registered saver %s never observed in use" % name)
+    if counters.get("history_masks_over_removed_dataset_with_value", 0) < 8:
+        out.append("fewer than 8 masks of a selection over a removed dataset's attribute evaluated through its key join")
     if not any(k.startswith("registered_saver:") for k in counters):
         out.append("the saver registry was not enumerated")
     return out
